@@ -55,8 +55,21 @@ def np_dtype(spec):
     import numpy as np
     if "plain" in spec:
         return np_scalar(*spec["plain"])
-    d = np.dtype([(n, np_scalar(k, s, o), tuple(sub)) if sub else (n, np_scalar(k, s, o))
-                  for n, k, s, o, sub in spec["fields"]])
+    if any(n.startswith("_pad") for n, _, _, _, _ in spec["fields"]):
+        names, formats, offsets, off = [], [], [], 0
+        for n, k, s, o, sub in spec["fields"]:
+            m = 1
+            for x in sub:
+                m *= x
+            if not n.startswith("_pad"):
+                names.append(n)
+                formats.append((np_scalar(k, s, o), tuple(sub)) if sub else np_scalar(k, s, o))
+                offsets.append(off)
+            off += s * m
+        d = np.dtype({"names": names, "formats": formats, "offsets": offsets, "itemsize": off})
+    else:
+        d = np.dtype([(n, np_scalar(k, s, o), tuple(sub)) if sub else (n, np_scalar(k, s, o))
+                      for n, k, s, o, sub in spec["fields"]])
     if describe_dtype(d) != spec:
         raise HarnessFault("cannot build dtype %r: got %r" % (spec, describe_dtype(d)))
     return d
@@ -70,12 +83,14 @@ def describe_dtype(d):
     fields, off = [], 0
     for n in d.names:
         fd, fo = d.fields[n][0], d.fields[n][1]
-        if fo != off or fd.base.kind not in KIND or fd.base.names is not None:
-            raise Unrepresentable("dtype %r (padding, nesting or foreign kind)" % (d,))
+        if fo < off or fd.base.kind not in KIND or fd.base.names is not None or n.startswith("_pad"):
+            raise Unrepresentable("dtype %r (overlap, nesting or foreign kind)" % (d,))
+        if fo > off:        # padding of an aligned structure: bytes without byte order that nothing may touch
+            fields.append(["_pad%d" % off, "S", int(fo - off), "|", []])
         fields.append([n, fd.base.kind, int(fd.base.itemsize), fd.base.byteorder, [int(x) for x in fd.shape]])
-        off += fd.itemsize
+        off = fo + fd.itemsize
     if off != d.itemsize:
-        raise Unrepresentable("dtype %r has trailing padding" % (d,))
+        fields.append(["_pad%d" % off, "S", int(d.itemsize - off), "|", []])
     return {"fields": fields}
 
 
@@ -117,7 +132,29 @@ def describe(arr):
     import numpy as np
     if not isinstance(arr, np.ndarray):
         raise Unrepresentable("result is %s, not ndarray" % type(arr).__name__)
-    return {"dtype": describe_dtype(arr.dtype), "shape": [int(x) for x in arr.shape], "data": arr.tobytes().hex()}
+    spec = describe_dtype(arr.dtype)
+    return {"dtype": spec, "shape": [int(x) for x in arr.shape], "data": zero_pads(spec, arr.tobytes()).hex()}
+
+
+def zero_pads(spec, raw):
+    """padding bytes of an aligned structure are not values (numpy's own copies zero or keep them as it pleases):
+    canonicalised to zero in everything that is compared"""
+    if "fields" not in spec or not any(f[0].startswith("_pad") for f in spec["fields"]):
+        return raw
+    rs, spans, off = 0, [], 0
+    for n, k, s_, o, sub in spec["fields"]:
+        m = 1
+        for x in sub:
+            m *= x
+        if n.startswith("_pad"):
+            spans.append((off, off + s_ * m))
+        off += s_ * m
+    rs = off
+    b = bytearray(raw)
+    for row in range(0, len(b), rs):
+        for lo, hi in spans:
+            b[row + lo:row + hi] = bytes(hi - lo)
+    return bytes(b)
 
 
 class HarnessFault(Exception):
@@ -165,8 +202,15 @@ def cfields(spec):
         "mkF %s %s %s %s %s" % (cstr(n), KIND[k], cnat(s), ORD[o], clist(sub, cnat)) for n, k, s, o, sub in spec["fields"])
 
 
+def chex_big(b):
+    """hex literal; buffers above 2000 bytes as a concatenation of short literals (coqc's stack)"""
+    if len(b) <= 2000:
+        return chex(b)
+    return "(%s)" % " ++ ".join(chex(b[i:i + 2000]) for i in range(0, len(b), 2000))
+
+
 def carr(a):
-    return "(mkA %s %s %s)" % (cdtype(a["dtype"]), clist(a["shape"], cnat), chex(bytes.fromhex(a["data"])))
+    return "(mkA %s %s %s)" % (cdtype(a["dtype"]), clist(a["shape"], cnat), chex_big(bytes.fromhex(a["data"])))
 
 
 def cout(o):
@@ -230,7 +274,7 @@ def gen_data(r, spec, shape, style=None):
 
 
 def arr_case(r, spec, shape, style=None):
-    return {"dtype": spec, "shape": shape, "data": gen_data(r, spec, shape, style)}
+    return {"dtype": spec, "shape": shape, "data": zero_pads(spec, bytes.fromhex(gen_data(r, spec, shape, style))).hex()}
 
 
 def spell(r, big):
@@ -288,6 +332,23 @@ def gen_struct(r, mode, nf=None):
     return {"fields": fields}
 
 
+def aligned_struct(r):
+    """an aligned (padded) uniformly ordered structure, described with its padding as '_pad<offset>' byte fields"""
+    import numpy as np
+    for _ in range(50):
+        spec = gen_struct(r, r.choice(["uniform", "with-na", "with-na"]), nf=r.randrange(2, 5))
+        d = np.dtype([(n, np_scalar(k, s, o), tuple(sub)) if sub else (n, np_scalar(k, s, o))
+                      for n, k, s, o, sub in spec["fields"]], align=True)
+        out = describe_dtype(d)
+        if len(out["fields"]) > len(spec["fields"]) and rowsize(out) <= 120:
+            return out
+    return out
+
+
+def is_padded(spec):
+    return "fields" in spec and any(f[0].startswith("_pad") for f in spec["fields"])
+
+
 def struct_mode(spec):
     os_ = [o for _, _, _, o, _ in spec["fields"]]
     import numpy as np
@@ -343,7 +404,11 @@ def array_pool(ctx, round):
                         fields.append(["u%d" % i, "u", 1, "|", r.choice([[], [3]])])
                 for sh in ([r.choice([[], [2]])] if ctx.quick() else [[], [2], [2, 2], [0]]):
                     pool.append((arr_case(r, {"fields": fields}, sh), "struct-all-subarray" if nelem(sh) else "zero-size"))
-    n = ctx.n(52, 700) if round == 0 else ctx.n(60, 300)
+        # platform-like layout: ALIGNED structures (np.dtype(..., align=True)): padding bytes between and after the
+        # fields (not values: canonicalised to zero), which must not shift the fields or be taken for data
+        for i in range(ctx.n(6, 60)):
+            pool.append((arr_case(r, aligned_struct(r), r.choice([[], [2], [3]])), "struct-aligned-padded"))
+    n = ctx.n(46, 700) if round == 0 else ctx.n(60, 300)
     nonzero = [sh for sh in SHAPES if nelem(sh)]
     for i in range(n):
         x = r.random()
@@ -383,6 +448,8 @@ class Convert(Entry):
             combos = [(f, ip, kd) for f in FNS for ip in (False, True) for kd in (False, True)]
             if ctx.quick() and round == 0 and fam.startswith("plain"):
                 combos = r.sample(combos, 6)
+            if ctx.quick() and round == 0 and fam == "struct-aligned-padded":
+                combos = r.sample(combos, 8)
             if ctx.quick() and round == 0 and fam == "struct-all-subarray":
                 combos = [(f, ip, kd) for f in FNS for ip, kd in [r.choice([(False, False), (True, False), (False, True), (True, True)]),
                                                                   (r.random() < 0.5, False)]]
@@ -601,7 +668,7 @@ class RecNative(Entry):
 
     def cases(self, ctx, round=0):
         r = ctx.rng
-        pool = array_pool(ctx, round)
+        pool = [(a, fam) for a, fam in array_pool(ctx, round) if not is_padded(a["dtype"])]   # astype drops padding bytes
         if ctx.quick():
             pool = pool[::3]
         cs = [{"array": a, "family": fam} for a, fam in pool]
@@ -938,7 +1005,7 @@ def twin_layouts(r, tag, count=2, nf=None):
 SEQ_FNS = FNS + ["rec_to_native", "to_native_inplace"]
 
 
-def seq_call(objs, st):
+def seq_call(objs, st, keepalive=None):
     """run one step on the live objects; returns its canonical output (input state observed just before the call)"""
     import numpy as np
     import esutil.numpy_util as nu
@@ -962,7 +1029,15 @@ def seq_call(objs, st):
                             "inp": describe(x)}
             return observe(f, x, inplace=ip, keep_dtype=kd)
         r1, o1 = one(a)
+        if st.get("scribble") and r1 is not a:
+            # the caller modifies the RETURNED array: the argument must not notice, the next call must not either
+            kept = describe(r1)
+            r1.reshape(-1).view("u1")[...] = 0xA5
+            o1["inp"] = describe(a)
+            r1.reshape(-1).view("u1")[...] = np.frombuffer(bytes.fromhex(kept["data"]), dtype="u1")
         r2, o2 = one(r1)
+        if keepalive is not None:
+            keepalive.append((o1, r1))
         return {"before": before, "o": [o1, o2]}
     if fn == "rec_to_native":
         r1, o1 = observe(U.to_native, a)
@@ -980,8 +1055,8 @@ def seq_call(objs, st):
     raise HarnessFault("unknown step function %r" % fn)
 
 
-def seq_step_guarded(objs, st):
-    return guarded_impl(lambda: seq_call(objs, st))
+def seq_step_guarded(objs, st, keepalive=None):
+    return guarded_impl(lambda: seq_call(objs, st, keepalive))
 
 
 def seq_term(st, out):
@@ -1072,7 +1147,8 @@ class Sequence(Entry):
                     if order == "BA":
                         lays = lays[::-1]
                     objs = [arr_case(rr, sp, sh) for sp in lays]
-                    steps = [{"obj": j, "fn": fn, "inplace": ip, "keep": kd} for j in range(len(objs))]
+                    steps = [{"obj": j, "fn": fn, "inplace": ip, "keep": kd, "scribble": (i + j) % 2 == 0}
+                             for j in range(len(objs))]
                     cs.append({"objects": objs, "steps": steps, "family": "twins-%s/%s" % (order, fn)})
         # (b') plain twins: same item size, different kind / order
         for i in range(ctx.n(6, 30)):
@@ -1096,7 +1172,7 @@ class Sequence(Entry):
             a0 = arr_case(r, spec, sh)
             fn = r.choice(SEQ_FNS)
             ip, kd = opts()
-            steps = [{"obj": 0, "fn": fn, "inplace": ip, "keep": kd},
+            steps = [{"obj": 0, "fn": fn, "inplace": ip, "keep": kd, "scribble": True},
                      {"obj": 0, "fn": fn, "inplace": ip, "keep": kd, "refill": gen_data(r, spec, sh, "random")},
                      {"obj": 1, "fn": fn, "inplace": ip, "keep": kd},
                      {"obj": 0, "fn": r.choice(SEQ_FNS), "inplace": not ip, "keep": kd},
@@ -1125,13 +1201,14 @@ class Sequence(Entry):
     def impl(self, c):
         objs = [build(a) for a in c["objects"]]
         outs = []
+        keepalive = []          # (recorded outcome, live result) of every converter call: results must stay what they were
         for st in c["steps"]:
             if st["fn"] == "rec_to_native":
                 import esutil.recfile.Util as U
                 if not hasattr(U, "to_native"):
                     outs.append({"err": "absent", "msg": "recfile.Util.to_native does not exist in this tree"})
                     continue
-            out = seq_step_guarded(objs, st)
+            out = seq_step_guarded(objs, st, keepalive)
             if c.get("fresh") and "ok" in out:
                 # the same call on the same input state, alone in a fresh process
                 alone = FRESH.ask({"array": out["ok"]["before"], "step": dict(st, obj=0, refill=None)})
@@ -1139,6 +1216,13 @@ class Sequence(Entry):
                 if not out["history_independent"]:
                     out["alone"] = alone
             outs.append(out)
+        # a result handed out earlier that a LATER call changed (internal buffer shared between results) is judged in
+        # the state it has now: model and checker then reject it
+        for o1, live in keepalive:
+            if not o1["same"]:
+                now = describe(live)
+                if now != o1["res"]:
+                    o1["res"] = now
         return outs
 
     def term(self, c, outs):
@@ -1259,8 +1343,24 @@ class SubclassConvert(Convert):
         return Convert.show(self, c)
 
 
+class Scale(Convert):
+    """scale thresholds that are still ordinary inputs (thorough tier): more than 2^15 elements / 2^16 bytes in one buffer"""
+    name = "scale"
+
+    def cases(self, ctx, round=0):
+        if ctx.quick() or round:
+            return []
+        r = ctx.rng
+        a1 = arr_case(r, {"plain": ["i", 2, r.choice(["<", ">"])]}, [(1 << 15) + 3], "random")
+        spec = {"fields": [["id", "i", 4, ">", []], ["s", "S", 3, "|", []], ["v", "f", 8, ">", [2]]]}
+        a2 = arr_case(r, spec, [(1 << 16) // 23 + 2], "random")
+        return [{"fn": "to_native", "inplace": True, "keep": False, "array": a1, "family": "scale-plain"},
+                {"fn": r.choice(["to_little_endian", "byteswap"]), "inplace": False, "keep": False, "array": a2,
+                 "family": "scale-struct"}]
+
+
 ENTRIES = [Convert(), NativeInplace(), Predicates(), Descr(), RecNative(), ViewConvert(), Nested(), Sequence(),
-           SubclassConvert()]
+           SubclassConvert(), Scale()]
 
 TRUSTED = [
     "Coq 8.16.1 kernel (coqc, vm_compute; no native_compute); every C16 theorem is closed under the global context (no axioms)",
